@@ -38,7 +38,12 @@ theorem resolveConstants_constOK (fl : Flags) (o : Orders) (exprs : AMap Ex) (co
     have := resolveLoop_constOK fl exprs hwf sorted [] [] (by intro k v hv; simp [AMap.get?] at hv)
     split at h
     · simp only [Except.ok.injEq] at h
-      rw [← h]; exact this
+      rw [← h]
+      intro n x hx
+      rw [canonConsts_get?] at hx
+      split at hx
+      · exact this n x hx
+      · cases hx
     · simp at h
   · simp at h
   · simp at h
